@@ -21,6 +21,7 @@ open Proto Grid RoundOps
       decs   <x>                                -> <n>
       arange <start> <stop> <step>              -> <list>
       frange <start> <stop> <delta>             -> <list>                      (array built by from_range)
+      fromrange <start> <stop> <delta> <dec>    -> <lb> <delta> <grid> | ERR   (ParameterGrid.from_range)
       mkirr  <arr>                              -> OK | ERR
       irr    <grid> <v>                         -> <nearest|ERR> <lower|ERR> <upper|ERR>
       irra   <grid> <vs>                        -> <nearest list|ERR> <lower list|ERR> <upper list|ERR>   (array arguments)
@@ -32,7 +33,7 @@ open Proto Grid RoundOps
       parrun <lb> <delta> <dec> <ns> <table> <calls>     table = `sid:gridparams:values;…`, calls = `sid:xs;…`
       null   <grids> <params> <n>               -> <rounded columns `;`> <grads: D rows `;`>      grids = `lb,delta,dec;…`, params = columns `;`
       prod   <grids `;`>                        -> tuples `;`
-      pdfset <names `,`> <grids `;`> <lookups `;`>  -> ERR | per lookup the registered tuple or MISS, `;`   lookup = `name=bits&name=bits`
+      pdfset <names `,`> <grids `;`> <lookups `;`> <readd:i|->  -> ERR | per lookup the registered tuple or MISS, `;` (+ READD-ERR)   lookup = `name=bits&name=bits`
       keyeq  <dict> <dict>                      -> 1 | 0                        dict = `name=bits&…`
 -/
 
@@ -217,6 +218,14 @@ def answer (line : String) : Tagged :=
   | ["frange", a, b, c] =>
       let l := fromRangeArr (pF a) (pF b) (pF c)
       (fListD fF l, [if l.length ≤ 1 then "arange:n<=1" else "arange:n>=2"])
+  | ["fromrange", a, b, c, dec] =>
+      let arr := fromRangeArr (pF a) (pF b) (pF c)
+      (match arr.head? with
+        | none => "ERR"
+        | some g0 =>
+          let G := mkGrid g0 (pF c) (pN dec) Gen.C15.floatDDecimals
+          s!"{fF G.lb} {fF G.delta} {fListD fF (buildGrid G arr)}",
+       [if arr.length ≤ 1 then "arange:n<=1" else "arange:n>=2"])
   | ["mkirr", arr] =>
       (match mkIrr (pList pF arr) with
         | some _ => ("OK", ["mkIrr:ok"])
@@ -268,16 +277,23 @@ def answer (line : String) : Tagged :=
   | ["prod", grids] =>
       let gs := (semis grids).map (pList pF)
       (String.intercalate ";" ((gridProduct gs).map (fListD fF)), [if gs.length = 1 then "product:D=1" else "product:D>=2"])
-  | ["pdfset", names, grids, lookups] =>
+  | ["pdfset", names, grids, lookups, readd] =>
       let nm := names.splitOn ","
       let gs := (semis grids).map (pList pF)
-      (match pdfAddAll (fun d => d.map (·.2)) ([] : PDFSetM Float (List Float)) (permutationDicts nm gs) with
+      let ds := permutationDicts nm gs
+      (match pdfAddAll (fun d => d.map (·.2)) ([] : PDFSetM Float (List Float)) ds with
         | none => ("ERR", ["pdfAdd:already-added"])
         | some s =>
           let res := (semis lookups).map fun l => match pdfGet s (pDict l) with
             | some t => fListD fF t
             | none => "MISS"
-          (String.intercalate ";" res, ["pdfAdd:ok"] ++ dedup (res.map fun r => if r == "MISS" then "pdfGet:miss" else "pdfGet:hit")))
+          -- `readd` = index of a permutation that is registered a second time (KeyError "already added"), or `-`
+          let again := if readd == "-" then [] else match ds[pN readd]? with
+            | some d => [match pdfAdd s (d.map (·.2)) d with | none => "READD-ERR" | some _ => "READD-OK"]
+            | none => ["READD-NONE"]
+          (String.intercalate ";" (res ++ again),
+           ["pdfAdd:ok"] ++ dedup (res.map fun r => if r == "MISS" then "pdfGet:miss" else "pdfGet:hit") ++
+             (if again == ["READD-ERR"] then ["pdfAdd:already-added"] else [])))
   | ["keyeq", d1, d2] =>
       let r := keyEq (pDict d1) (pDict d2)
       (fB r, [if r then "keyEq:equal" else "keyEq:different"])
